@@ -4,7 +4,7 @@
 From Coq Require Import List NArith ZArith Bool Arith String.
 Import ListNotations.
 Require Import Scan Pos Reader Chunk Comb ParseL PT ParserSafe ParserTerm.
-Require Construct ComposerTotal ParserGrammar ScanSafe PlainDispatch.
+Require Construct ComposerTotal ParserGrammar ScanSafe PlainDispatch ScanQueue ScanMarks.
 
 (* KIND C03_forward_never_crashes_inside_buffer : U *)
 (* Reader.forward over any prefix that lies inside the buffer returns normally (no IndexError) *)
@@ -155,6 +155,38 @@ Example C03_scanner_invariant_nonvacuous :
                                Scan.taken := 0; Scan.indent := -1; Scan.indents := []; Scan.allow_sk := true; Scan.psk := [] |}) = Scan.Crash Scan.IndexError.
 Proof. split; [apply ScanSafe.init_inv; cbv; intuition discriminate|vm_compute; reflexivity]. Qed.
 
-(* PARTIAL: error_marks_inside (every error mark lies inside the input) and the token budget of scan_all (the number of tokens is at most 2n+8) are
-   not proved.  They are decided by the scan/parse/compose/reader correspondence on a malformed-input stream (outcome class incl. the class of any
-   non-YAML exception must agree with the model) and by the direct run on the implementation under a watchdog. *)
+(* KIND C03_scanned_tokens_are_delimited : U *)
+(* what the scanner delivers is what the parser theorems ask for: for EVERY text, when the scan ends normally the token list is STREAM-START, tokens that
+   are not STREAM-END, and one final STREAM-END.  (Proofs/ScanQueue.v; the bookkeeping lemmas for the 58 functions that never touch the token queue or
+   only add tokens of a fixed kind are generated from Model/Scan.v by tools/gen_scanq.py, one generic tactic) *)
+Theorem C03_scanned_tokens_are_delimited : forall text toks, Scan.scan_all text = (toks, Scan.Ok tt) ->
+  exists t r, toks = (t :: r)%list /\ t_kind t = TStreamStart /\ toks_ok r.
+Proof. exact ScanQueue.scanned_tokens_are_delimited. Qed.
+Eval vm_compute in "ASSUME:C03_scanned_tokens_are_delimited"%string. Print Assumptions C03_scanned_tokens_are_delimited.
+(* KIND C03_scanned_text_parses_totally : U *)
+(* scanner and parser composed, EVERY text: when the scan ends normally, the parser run on its tokens is total - events or a ParserError, never a crash,
+   never out of fuel; with C03_scanner_never_crashes (no crash before) and C03_parsed_documents_compose (no crash after) the chain from characters to
+   node graphs never leaves the YAML errors, except for the ValueError of the 4300-digit version *)
+Theorem C03_scanned_text_parses_totally : forall text, snd (Scan.scan_all text) = Scan.Ok tt ->
+  ParserTerm.total (snd (ParseL.parse_all (fst (Scan.scan_all text)))).
+Proof. exact ScanQueue.scanned_text_parses_totally. Qed.
+Eval vm_compute in "ASSUME:C03_scanned_text_parses_totally"%string. Print Assumptions C03_scanned_text_parses_totally.
+(* KIND C03_error_marks_inside_the_buffer : U *)
+(* EVERY text: when the scan ends with a ScannerError, the position it reports - and the position of its context, if it has one - is an index into the
+   buffer (the input and its final NUL).  Proofs/ScanMarks.v: the position invariant index + remaining characters = buffer length, and "the marks of
+   the saved simple keys lie inside", kept by all 69 functions (lemmas generated from Model/Scan.v by tools/gen_scanm.py) *)
+Theorem C03_error_marks_inside_the_buffer : forall text toks c code pm, Scan.scan_all text = (toks, Scan.ScanErr c code pm) ->
+  m_index pm <= List.length text + 1 /\ match c with Some cm => m_index cm <= List.length text + 1 | None => True end.
+Proof. exact ScanMarks.error_marks_inside_the_buffer. Qed.
+Eval vm_compute in "ASSUME:C03_error_marks_inside_the_buffer"%string. Print Assumptions C03_error_marks_inside_the_buffer.
+(* KIND C03_scan_examples : F *)
+(* "a: [b" scans to a ScannerError-free token list that the parser rejects with a ParserError; "'x" is a ScannerError at index 2, inside the buffer *)
+Example C03_scan_examples :
+  snd (Scan.scan_all [97; 58; 32; 91; 98]%N) = Scan.Ok tt /\
+  (match snd (ParseL.parse_all (fst (Scan.scan_all [97; 58; 32; 91; 98]%N))) with Scan.ScanErr _ _ _ => True | _ => False end) /\
+  (match snd (Scan.scan_all [39; 120]%N) with Scan.ScanErr _ _ pm => m_index pm = 2 | _ => False end).
+Proof. vm_compute. repeat split; reflexivity. Qed.
+
+(* PARTIAL: the token budget of scan_all (the number of tokens is at most 2n+8), error positions in terms of line and column, and the marks of
+   parser / composer errors are not proved.  They are decided by the scan/parse/compose/reader correspondence on a malformed-input stream (outcome class
+   incl. the class of any non-YAML exception must agree with the model) and by the direct run on the implementation under a watchdog. *)
